@@ -26,4 +26,7 @@ try:
         print(p, r.returncode, lines[:3])
 finally:
     subprocess.run(["git", "-C", "/repo", "checkout", "--", "."], check=True)
+    # the evidence files these runs rewrote describe a tree with a seeded change: put the committed ones back
+    for p in props:
+        subprocess.run(["git", "-C", root, "checkout", "--", f"evidence/{p}.json"])
 json.dump(dict(tier=tier, results=res, at=time.strftime("%Y-%m-%dT%H:%M:%S")), open(os.path.join(d, f"result_{tier}.json"), "w"), indent=1)
